@@ -1053,6 +1053,9 @@ DTDScanner::scanChildren(const DTDElementDecl& elemDecl, XMLBuffer& bufToUse, un
     checkForPERef(false, true);
 
     ValueStackOf<XMLSize_t>* arrNestedDecl=NULL;
+    // owns arrNestedDecl, so that it is released on every early return and
+    // when an error handler throws
+    Janitor<ValueStackOf<XMLSize_t> > janNestedDecl(0);
     //
     //  We know that the caller just saw an opening parenthesis, so we need
     //  to parse until we hit the end of it; if we find several parenthesis,
@@ -1067,7 +1070,10 @@ DTDScanner::scanChildren(const DTDElementDecl& elemDecl, XMLBuffer& bufToUse, un
         // to check entity nesting
         const XMLSize_t curReader = fReaderMgr->getCurrentReaderNum();
         if(arrNestedDecl==NULL)
+        {
             arrNestedDecl=new (fMemoryManager) ValueStackOf<XMLSize_t>(5, fMemoryManager);
+            janNestedDecl.reset(arrNestedDecl);
+        }
         arrNestedDecl->push(curReader);
 
         // Check for a PE ref here, but don't require spaces
@@ -1251,8 +1257,10 @@ DTDScanner::scanChildren(const DTDElementDecl& elemDecl, XMLBuffer& bufToUse, un
                         try {
                             subNode = scanChildren(elemDecl, bufToUse, depth);
                         }
-                        catch (const XMLErrs::Codes)
+                        catch (...)
                         {
+                            // not only the scanner's own XMLErrs::Codes: an
+                            // application error handler may throw anything
                             delete headNode;
                             throw;
                         }
@@ -1393,7 +1401,7 @@ DTDScanner::scanChildren(const DTDElementDecl& elemDecl, XMLBuffer& bufToUse, un
 
             if(arrNestedDecl->empty())
             {
-                delete arrNestedDecl;
+                janNestedDecl.reset(0);
                 arrNestedDecl=NULL;
             }
         }
